@@ -56,6 +56,8 @@ def line_text(k, n, a, b):
         return '.byte ' + ', '.join(vals)
     if k == 'fill':
         return f'.fill {a}, {b}'
+    if k == 'fillr':
+        return f'.fill {a}, {nm(n)}'
     if k == 'zero':
         return f'.zero {a}'
     if k == 'zuntil':
